@@ -351,6 +351,10 @@ impl C04 {
             (Req { id: big(7), ..m2.clone() }, false),
             (Req { id: big(1000), ..m1.clone() }, false),
             (Req { signal: b"another signal".to_vec(), ext: big(77), id: big(0), ..m2.clone() }, true),
+            // code 5 is the tree change; code 6: member 1's position asked for with a limit that is not the registered one
+            // (well-formed; the values published are the formulas for THAT witness: the root folds from its own leaf)
+            (m1.clone(), true),
+            (Req { limit: big(50), id: big(3), ..m1.clone() }, true),
         ];
         let codes: Vec<u8> = codes.to_vec();
         let r = with_rln(|rln| -> Result<Vec<(usize, &'static str, String)>, String> {
@@ -377,6 +381,7 @@ impl C04 {
                     continue;
                 }
                 let (rq, valid) = &reqs[*c as usize % reqs.len()];
+                let foreign = *c == 6;
                 let got = guard(|| {
                     let mut o = Cursor::new(Vec::<u8>::new());
                     rln.generate_rln_proof(Cursor::new(rq.prove_input()), &mut o).map(|_| o.into_inner()).map_err(|e| e.to_string())
@@ -387,6 +392,7 @@ impl C04 {
                     (Ok(Err(_)), false) => {}
                     (Ok(Err(e)), true) => bad.push((k, "error", format!("a valid request was refused: {e}"))),
                     (Ok(Ok(bytes)), true) => {
+                        let _ = foreign;
                         let (path, bits) = model.path(rq.index);
                         let ci = CircuitInputs { secret: rq.secret.clone(), limit: rq.limit.clone(), id: rq.id.clone(), path, bits: bits.iter().map(|b| big(*b as u64)).collect(), x: crate::refmodel::keccak::hash_to_field(&rq.signal), ext: rq.ext.clone() };
                         let want = codec::proof_values(&ref_values(&ci));
@@ -501,18 +507,19 @@ impl Prop for C04 {
         // request sequences on one thread and one tree with two members, refused requests in between: every sequence
         // of length <= 3 that ends with a valid request (the ones before it are the history)
         let mut seqs: Vec<Vec<u8>> = vec![];
-        for a in 0u8..6 {
-            for b in 0u8..6 {
-                for c in [0u8, 1, 4] {
+        for a in [0u8, 1, 2, 3, 4, 5, 6] {
+            for b in [0u8, 1, 2, 3, 4, 5, 6] {
+                for c in if q { vec![1u8, 6] } else { vec![0u8, 1, 4, 6] } {
                     seqs.push(vec![a, b, c]);
                 }
             }
         }
-        for b in 0u8..6 {
-            for c in [0u8, 1, 4] {
+        for b in [0u8, 1, 2, 3, 4, 5, 6] {
+            for c in [0u8, 1, 4, 6] {
                 seqs.push(vec![b, c]);
             }
         }
+        seqs.push(vec![6]);
         if !q {
             for a in 0u8..6 { for b in 0u8..6 { for c in 0u8..6 { for e in [0u8, 1, 4] { seqs.push(vec![a, b, c, e]); } } } }
         }
@@ -527,7 +534,7 @@ impl Prop for C04 {
         ev.set("real_messages_checked", json!(messages));
         ev.set("deviation_bound", json!(if q { 1 } else { 2 }));
         ev.set("exhaustive", json!(true));
-        ev.set("rule", json!("every witness within k deviations of the default over {secret, x, external nullifier: F* + randoms; (limit,id) pairs; one path element (position x value); direction-bit pattern incl. all one-hot, alternating and position-alphabet patterns}; for each witness the circuit accepts: proof_values_from_witness, calculate_rln_witness()[1..6] and (subset) bytes 128..288 of a real message are compared with the reference formulas (reference Poseidon), which are themselves compared with the outputs of rln.wasm on every case; every sequence of 3 (thorough 4) generate_rln_proof requests over {valid member 1, valid member 2, member 2 with id = limit, member 1 with id > limit, member 2 other signal, a third leaf written / removed} ending in a valid one, each sequence on a fresh thread with its own instance and two-member tree, each message's public values compared with the formulas; distinct_nontrivial = distinct accepted grid vectors"));
+        ev.set("rule", json!("every witness within k deviations of the default over {secret, x, external nullifier: F* + randoms; (limit,id) pairs; one path element (position x value); direction-bit pattern incl. all one-hot, alternating and position-alphabet patterns}; for each witness the circuit accepts: proof_values_from_witness, calculate_rln_witness()[1..6] and (subset) bytes 128..288 of a real message are compared with the reference formulas (reference Poseidon), which are themselves compared with the outputs of rln.wasm on every case; every sequence of 3 (thorough 4) generate_rln_proof requests over {valid member 1, valid member 2, member 2 with id = limit, member 1 with id > limit, member 2 other signal, a third leaf written / removed, member 1's position with another limit} ending in a valid one, each sequence on a fresh thread with its own instance and two-member tree, each message's public values compared with the formulas; distinct_nontrivial = distinct accepted grid vectors"));
         ev.set("alphabets", json!(coords.iter().map(|c| json!({"coordinate": c.name, "size": c.alts.len()})).collect::<Vec<_>>()));
         for (idx, ci) in cases.iter().step_by((cases.len() / 4).max(1)).take(4) {
             ev.sample(json!({"deviation": dev_class(&coords, idx), "inputs": ci.to_json()}));
